@@ -101,7 +101,11 @@ def check_linear(h: Harness, spec, b, g, mind, rng):
                 try:
                     c = gram.canon(p, b)
                     # structure only for the stack machine (its refined fields are C02's open finding)
-                    h.holds(site, "ill-typed-program", ["prop_wt_struct" if name == "Stack" else "prop_wt", line_spec, c],
+                    # the stack machine fills a refined tuple field with the base type's default `()`:
+                    # same root cause as C02's open finding, but here it breaks the structure too
+                    stack_default = name == "Stack" and "(t)" in sx(c) and "interval" in sx(line_spec)
+                    h.holds(site, "refined-tuple-field-is-empty-tuple" if stack_default else "ill-typed-program",
+                            ["prop_wt_struct" if name == "Stack" else "prop_wt", line_spec, c],
                             f"mapped program is not well-typed: {sx(c)[:300]}", [sx(line_spec), name, kind, d])
                 except RecursionError:
                     h.count("skipped-recursion")
